@@ -346,9 +346,23 @@ func (c *Client) sendRecv(tm message, rm message) error {
 	c.pending[tag(t)] = resp
 	c.pendingMu.Unlock()
 
-	// Send the request over the wire.
+	// Send the request over the wire - unless a send has failed while this
+	// call was waiting for its turn: what that send left on the wire may be
+	// half a frame, and nothing may be written behind it. The failing sender
+	// records the error before it lets the next one in.
 	c.sendMu.Lock()
-	err := send(c.log, c.conn, tag(t), tm)
+	c.pendingMu.Lock()
+	err := c.connErr
+	c.pendingMu.Unlock()
+	if err == nil {
+		if err = send(c.log, c.conn, tag(t), tm); err != nil {
+			c.pendingMu.Lock()
+			if _, ok := err.(ConnError); ok && c.connErr == nil {
+				c.connErr = err
+			}
+			c.pendingMu.Unlock()
+		}
+	}
 	c.sendMu.Unlock()
 	if err != nil {
 		// Nobody is going to answer a request that was not sent. Unregister
